@@ -65,7 +65,30 @@ struct DTuple(u16, u16);
 #[stable_hash_crate(qbice_stable_hash)]
 enum DGen<T, U> { L(T), R(U), Both { l: T, r: U }, N }
 
+/// directed case (finding F5): a RangeInclusive iterated to exhaustion differs (==, is_empty, contains) from the fresh
+/// range with the same bounds; std's own Hash feeds the `exhausted` flag, StableHash feeds start and end only
+fn range_inclusive_exhausted() {
+    let fresh = 3u32..=3;
+    let mut used = 3u32..=3;
+    let _ = used.next();
+    assert!(fresh != used);
+    all_distinct("RangeInclusive<u32>: fresh vs iterated to exhaustion (unequal values)", &[fresh, used]);
+    let fresh = -2i64..=0;
+    let mut used = -2i64..=0;
+    while used.next().is_some() {}
+    all_distinct("RangeInclusive<i64>: fresh vs drained (unequal values)", &[fresh, used]);
+}
+
 fn main() {
+    {
+        let args: Vec<String> = std::env::args().collect();
+        if let Some(i) = args.iter().position(|a| a == "--only") {
+            match args.get(i + 1).map(String::as_str) {
+                Some("range_inclusive_exhausted") => { range_inclusive_exhausted(); report_none(unsafe { COUNT }); }
+                other => panic!("unknown --only case {other:?}"),
+            }
+        }
+    }
     let mut rng = Rng(seed_from_args() ^ 0xC13);
     // ---------- history-free
     for round in 0..200u64 {
